@@ -71,9 +71,17 @@ Reverse(s) == [i \in 1..Len(s) |-> s[Len(s) + 1 - i]]
 OrderIndependent == \A a \in Addr : /\ MatchR(Swap(acl), a) = MatchR(acl, a) /\ MatchR(Reverse(acl), a) = MatchR(acl, a)
                                     /\ MatchM(Swap(acl), a) = MatchM(acl, a) /\ MatchM(Reverse(acl), a) = MatchM(acl, a)
 
+\* mixed address families: the replayer also writes the entries at odd positions as IPv4 and those at even positions
+\* as IPv6 entries of ONE acl; an address of a family is then judged by the sub-list of its family alone
+OddPart(s) == [i \in 1..((Len(s) + 1) \div 2) |-> s[2 * i - 1]]
+EvenPart(s) == [i \in 1..(Len(s) \div 2) |-> s[2 * i]]
 Bit(b) == IF b THEN 1 ELSE 0
 EmitInv == PrintT(<<"BEHAVIOUR", ToJson([w |-> W, acl |-> acl,
                                           r |-> [a \in Addr |-> Bit(MatchR(acl, a))],
                                           amb |-> [a \in Addr |-> Bit(Ambiguous(acl, a))],
-                                          m |-> [a \in Addr |-> Bit(MatchM(acl, a))]])>>)
+                                          m |-> [a \in Addr |-> Bit(MatchM(acl, a))],
+                                          rodd |-> [a \in Addr |-> Bit(MatchR(OddPart(acl), a))],
+                                          ambodd |-> [a \in Addr |-> Bit(Ambiguous(OddPart(acl), a))],
+                                          reven |-> [a \in Addr |-> Bit(MatchR(EvenPart(acl), a))],
+                                          ambeven |-> [a \in Addr |-> Bit(Ambiguous(EvenPart(acl), a))]])>>)
 =============================================================================
